@@ -533,6 +533,7 @@ type Contract struct {
 	Fresh    []string // results / places declared fresh (not aliasing any input)
 	MaybeNil []string
 	Uses     []string // lemmas (by name) assumed as hypotheses inside this function
+	Hide     []string // spec functions whose defining axioms (`;@ defines f` in the prelude) are not shipped with this function's VCs
 	Inlines  []string          // lemma functions: callees to execute by their bodies although they have contracts
 	Unrolls  map[string]int    // "pkg.Func#loop" -> max iterations (lemma functions: unroll instead of cutting at invariants)
 	Reads    map[string][2]int64 // `reads p[lo:hi]`: the function depends on parameter p only through p[lo:hi]
@@ -567,7 +568,7 @@ type ContractSet struct {
 var clauseKeywords = map[string]bool{
 	"func": true, "props": true, "requires": true, "ensures": true, "assigns": true, "loop": true, "alias": true,
 	"inline": true, "trusted": true, "panics": true, "nooverflow": true, "lemma": true, "pure": true, "opaque": true,
-	"extern": true, "assert": true, "fresh": true, "maybenil": true, "package": true, "pred": true, "tagset": true, "aset": true, "reads": true, "inlines": true, "unroll": true, "exit": true, "use": true,
+	"extern": true, "assert": true, "fresh": true, "maybenil": true, "package": true, "pred": true, "tagset": true, "aset": true, "reads": true, "inlines": true, "unroll": true, "exit": true, "use": true, "hide": true,
 }
 
 // assignSets: `//@ aset name := $.f, $.g[0:4]` — a reusable list of assigns items, `$` is the argument.
@@ -901,6 +902,8 @@ func (cs *ContractSet) ReadFile(path, pkgName string, external bool) error {
 				}
 			case "use":
 				cur.Uses = append(cur.Uses, strings.Fields(strings.ReplaceAll(rest, ",", " "))...)
+			case "hide":
+				cur.Hide = append(cur.Hide, strings.Fields(strings.ReplaceAll(rest, ",", " "))...)
 			case "inlines":
 				cur.Inlines = append(cur.Inlines, strings.Fields(strings.ReplaceAll(rest, ",", " "))...)
 			case "unroll":
